@@ -263,6 +263,39 @@ macro_rules! define_hasher {
                 *self = Self::default()
             }
         }
+
+        /// Verification hook (only with `--cfg cryptocorrosion_verif`): read and overwrite
+        /// the private state so that arbitrary chaining values and counters can be entered.
+        #[cfg(cryptocorrosion_verif)]
+        impl $name {
+            /// (chaining value, bit counter `t` = (low, high), buffer content, buffer position);
+            /// buffer bytes at and beyond the position are reported as zero.
+            pub fn verif_get_state(&self) -> ([[$word; 4]; 2], ($word, $word), [u8; $buf], usize) {
+                let pos = self.buffer.position();
+                let mut content = [0u8; $buf];
+                let zeros = [0u8; $buf];
+                let mut b = self.buffer.clone();
+                b.input_block(&zeros[..$buf - pos], |blk| content.copy_from_slice(blk));
+                (
+                    [self.compressor.h[0].into(), self.compressor.h[1].into()],
+                    self.t,
+                    content,
+                    pos,
+                )
+            }
+
+            /// Overwrites chaining value and counter; the buffer then holds `buffered`
+            /// (fewer bytes than one block).
+            pub fn verif_set_state(&mut self, h: [[$word; 4]; 2], t: ($word, $word), buffered: &[u8]) {
+                assert!(buffered.len() < $buf);
+                self.compressor = $compressor {
+                    h: [h[0].into(), h[1].into()],
+                };
+                self.t = t;
+                self.buffer.reset();
+                self.buffer.input_block(buffered, |_| unreachable!());
+            }
+        }
     };
 }
 
